@@ -105,6 +105,11 @@ func tierNum(t string) int64 {
 func RunHarness(l *Loaded, h *HarnessFn, cfg RunConfig) (res *HarnessResult) {
 	t0 := time.Now()
 	res = &HarnessResult{Name: h.Name, Prop: h.Prop, Status: "ok", SolverTime: map[string]float64{}}
+	if h.Threads {
+		runThreadHarness(l, h, cfg, res)
+		res.Wall = time.Since(t0).Seconds()
+		return res
+	}
 	e := NewEngine(l.Prog, Options{Trace: cfg.Trace})
 	e.harness = h.Name
 	e.tier = tierNum(cfg.Tier)
@@ -130,11 +135,7 @@ func RunHarness(l *Loaded, h *HarnessFn, cfg RunConfig) (res *HarnessResult) {
 			}
 		}()
 		e.runInit(l)
-		if h.Threads {
-			e.runThreads(h, res)
-		} else {
-			e.CallFunction(h.Fn, nil, nil)
-		}
+		e.CallFunction(h.Fn, nil, nil)
 	}()
 	res.ExecWall = time.Since(t0).Seconds()
 	if os.Getenv("VERIF_PROGRESS") != "" {
@@ -168,9 +169,11 @@ func trimStack(s string) string {
 }
 
 func (e *Engine) modelVars() []*Term {
-	vs := make([]*Term, len(e.nondets))
-	for i, n := range e.nondets {
-		vs[i] = n.T
+	var vs []*Term
+	for _, n := range e.nondets {
+		if n.T.Op == OpVar {
+			vs = append(vs, n.T)
+		}
 	}
 	return vs
 }
@@ -211,7 +214,9 @@ func (e *Engine) discharge(res *HarnessResult, cfg RunConfig) {
 	vars := e.modelVars()
 	// 1. assumptions satisfiable
 	res.Assumptions = countConj(e.assume)
-	if r, _, _ := pool.Solve([]*Term{e.assume}, nil); r != "sat" {
+	if e.assume.IsTrue() {
+		// nothing assumed: trivially satisfiable
+	} else if r, _, _ := pool.Solve([]*Term{e.assume}, nil); r != "sat" {
 		res.Status = "inconclusive"
 		res.Reason = "assumptions are not satisfiable (" + r + "): harness is vacuous"
 		return
@@ -258,6 +263,11 @@ func (e *Engine) discharge(res *HarnessResult, cfg RunConfig) {
 				continue
 			}
 		}
+		if c.Cond.IsTrue() && c.Assume.IsTrue() {
+			c.Result = "sat"
+			c.Model = Model{}
+			continue
+		}
 		cjobs = append(cjobs, job{c: c})
 	}
 	for _, j := range cjobs {
@@ -303,6 +313,10 @@ func (e *Engine) discharge(res *HarnessResult, cfg RunConfig) {
 				res.Samples = append(res.Samples, &Sample{Harness: e.harness, Cover: c.Label, Values: pr, raw: raw})
 			}
 		case "unsat":
+			if e.threadRun {
+				// per-execution: reachability and cover goals are judged over all executions by the driver
+				continue
+			}
 			res.Status = "inconclusive"
 			if isReach {
 				res.Reason = "vacuous: assertion never reached: " + strings.TrimPrefix(c.Label, "reach:") + " at " + c.Pos
@@ -357,6 +371,11 @@ func (e *Engine) discharge(res *HarnessResult, cfg RunConfig) {
 			}
 			// obligation terms must exist before parallel printing: they do (Assume, Cond)
 			run(ojobs, func(j job) {
+				if j.o.Assume.IsTrue() && j.o.Cond.IsTrue() {
+					// concrete execution (engine replay with fixed values): the obligation fails outright
+					j.o.Result, j.o.Model, j.o.Solver = "sat", Model{}, "none"
+					return
+				}
 				r, m, k := pool.Solve([]*Term{j.o.Assume, j.o.Cond}, vars)
 				j.o.Result, j.o.Model, j.o.Solver = r, m, k
 			})
@@ -473,6 +492,170 @@ var _ = os.Stderr
 
 func SampleRaw(s *Sample) map[string]uint64 { return s.raw }
 
-func (e *Engine) runThreads(h *HarnessFn, res *HarnessResult) {
-	panic(e.unsupported("thread mode not built"))
+
+// runThreadHarness explores a thread-mode harness: one execution per decision sequence (scheduling choices and
+// symbolic branch sides), depth-first; every execution's obligations are closed by the solver.
+func runThreadHarness(l *Loaded, h *HarnessFn, cfg RunConfig, res *HarnessResult) {
+	maxRuns := 4000
+	if cfg.Tier == "thorough" {
+		maxRuns = 40000
+	}
+	var prefix []int
+	if cfg.Fixed != nil {
+		// replay of one execution: the decisions are part of the recorded values
+		for k := 0; ; k++ {
+			v, ok := cfg.Fixed[fmt.Sprintf("decision#%d", k)]
+			if !ok {
+				break
+			}
+			if cfg.Fixed[fmt.Sprintf("decision_is_branch#%d", k)] != 0 {
+				continue // with concrete values the branch is decided by the data, not by the exploration
+			}
+			prefix = append(prefix, int(v))
+		}
+		maxRuns = 1
+	}
+	coverHit := map[string]bool{}
+	coverSeen := map[string]*Sample{}
+	res.Funcs, res.Stubs, res.Notes = map[string]int{}, map[string]int{}, map[string]int{}
+	runs := 0
+	for ; ; runs++ {
+		if runs >= maxRuns {
+			if cfg.Fixed == nil {
+				res.Status = "inconclusive"
+				res.Reason = fmt.Sprintf("thread mode: more than %d executions", maxRuns)
+			}
+			break
+		}
+		e := NewEngine(l.Prog, Options{Trace: cfg.Trace})
+		e.harness = h.Name
+		e.tier = tierNum(cfg.Tier)
+		e.fixed = cfg.Fixed
+		e.threadRun = true
+		var ti *threadImpl
+		failed := false
+		func() {
+			defer func() {
+				if r := recover(); r != nil {
+					failed = true
+					res.Status = "inconclusive"
+					if u, ok := r.(*Unsupported); ok {
+						res.Reason = "unsupported: " + u.Msg
+					} else {
+						res.Reason = fmt.Sprintf("engine error: %v at %s\n%s", r, e.posStr(e.curPos), trimStack(string(debug.Stack())))
+					}
+				}
+			}()
+			e.runInit(l)
+			ti = newThreadImpl(e, prefix)
+			e.threads = &threadState{ti}
+			e.CallFunction(h.Fn, nil, nil)
+		}()
+		if ti != nil {
+			ti.shutdown()
+		}
+		if e.feas != nil {
+			res.SolverTime[e.feas.Kind] += e.feas.Time.Seconds()
+			res.FeasQueries += e.feas.Queries
+			e.feas.Close()
+		}
+		if failed {
+			break
+		}
+		res.Blocks += e.nBlocks
+		res.Instrs += e.nInstrs
+		res.Terms += e.tb.NumTerms()
+		res.Asserts += e.asserts
+		res.Nondets = len(e.nondets)
+		for k, v := range e.funcs {
+			res.Funcs[k] += v
+		}
+		for k, v := range e.stubs {
+			res.Stubs[k] += v
+		}
+		for k, v := range e.notes {
+			res.Notes[k] += v
+		}
+		sub := &HarnessResult{Name: h.Name, Prop: h.Prop, Status: "ok", SolverTime: map[string]float64{}}
+		e.discharge(sub, cfg)
+		res.Obligations += sub.Obligations
+		res.Trivial += sub.Trivial
+		res.Discharged += sub.Discharged
+		res.Sat += sub.Sat
+		res.Unknown += sub.Unknown
+		res.Queries += sub.Queries
+		for k, v := range sub.SolverTime {
+			res.SolverTime[k] += v
+		}
+		for _, s := range sub.Samples {
+			if !coverHit[s.Cover] {
+				coverHit[s.Cover] = true
+				coverSeen[s.Cover] = s
+			}
+		}
+		for _, c := range e.covers {
+			if !strings.HasPrefix(c.Label, "reach:") {
+				if _, ok := coverHit[c.Label]; !ok {
+					coverHit[c.Label] = false
+				}
+			}
+		}
+		for _, v := range sub.Violations {
+			for k, d := range ti.taken {
+				v.Values[fmt.Sprintf("decision#%d", k)] = uint64(d.chosen)
+				if d.branch {
+					v.Values[fmt.Sprintf("decision_is_branch#%d", k)] = 1
+				}
+			}
+			v.Pretty["schedule"] = fmt.Sprint(decisionList(ti.taken))
+			if len(res.Violations) < 8 {
+				res.Violations = append(res.Violations, v)
+			}
+			if v.Known == "" {
+				res.Status = "violation"
+			}
+		}
+		res.KnownLines = append(res.KnownLines, sub.KnownLines...)
+		if sub.Status == "inconclusive" && res.Status == "ok" {
+			res.Status = "inconclusive"
+			res.Reason = sub.Reason
+		}
+		// next decision sequence (depth-first)
+		k := len(ti.taken) - 1
+		for k >= 0 && ti.taken[k].chosen+1 >= ti.taken[k].n {
+			k--
+		}
+		if k < 0 || cfg.Fixed != nil {
+			runs++
+			break
+		}
+		prefix = prefix[:0]
+		for i := 0; i < k; i++ {
+			prefix = append(prefix, ti.taken[i].chosen)
+		}
+		prefix = append(prefix, ti.taken[k].chosen+1)
+		if res.Status == "violation" && len(res.Violations) >= 3 {
+			runs++
+			break // enough counterexamples
+		}
+	}
+	res.Schedules = runs
+	for label, hit := range coverHit {
+		res.CoversTotal++
+		if hit {
+			res.CoversHit++
+			res.Samples = append(res.Samples, coverSeen[label])
+		} else if res.Status == "ok" && cfg.Fixed == nil {
+			res.Status = "inconclusive"
+			res.Reason = "cover goal unreachable in every execution: " + label
+		}
+	}
+}
+
+func decisionList(ds []decision) []int {
+	out := make([]int, len(ds))
+	for i, d := range ds {
+		out[i] = d.chosen
+	}
+	return out
 }
